@@ -82,3 +82,55 @@ def format_calls(fn, pr=None):
             s = P.strip(pr.operand(t["args"][0]))
             out.append((bi, [("lit", s[1] if s[0] == "str" else "?")], []))
     return out
+
+
+_STR_IDENTITY = ("deref", "as_str", "as_ref", "borrow", "to_string", "to_owned", "into", "from", "must_use", "clone", "to_str")
+
+
+def fold_str(t, depth=0):
+    """the text of a string-valued term built only from literals: a literal, a constant, `format!(..)` whose every placeholder
+    is a plain `{}` of such a term, and the conversions between str / String (`&*s`, `.as_str()`, `.to_string()`, ..); else None"""
+    if depth > 12 or not isinstance(t, tuple):
+        return None
+    t = P.strip(t, calls=False)
+    if t[0] == "str":
+        return t[1]
+    if t[0] == "named" and len(t) > 2 and t[2] is not None:
+        return fold_str(t[2], depth + 1)
+    if t[0] != "call":
+        return None
+    nm = t[1].rsplit("::", 1)[-1]
+    if nm == "format" and t[1].endswith("fmt::format") and len(t[2]) == 1:
+        a = P.strip(t[2][0], calls=False)
+        if not (a[0] == "call" and a[1].startswith("std::fmt::Arguments") and a[2]):
+            return None
+        if a[1].endswith("::from_str"):
+            return fold_str(a[2][0], depth + 1)
+        if len(a[2]) != 2:
+            return None
+        tmpl, args = P.strip(a[2][0]), P.strip(a[2][1])
+        if tmpl[0] != "bytes" or not (args[0] == "agg" and args[1] == "array"):
+            return None
+        try:
+            pieces = decode(tmpl[1])
+        except (BadTemplate, IndexError):
+            return None
+        out = []
+        for pc in pieces:
+            if pc[0] == "lit":
+                out.append(pc[1])
+                continue
+            _, idx, flags, width, prec = pc
+            if flags is not None or width is not None or prec is not None or idx >= len(args[2]):
+                return None
+            av = P.strip(args[2][idx], calls=False)
+            if not (av[0] == "call" and av[1].rsplit("::", 1)[-1] == "new_display" and len(av[2]) == 1):
+                return None
+            s = fold_str(av[2][0], depth + 1)
+            if s is None:
+                return None
+            out.append(s)
+        return "".join(out)
+    if nm in _STR_IDENTITY and len(t[2]) == 1:
+        return fold_str(t[2][0], depth + 1)
+    return None
